@@ -123,6 +123,18 @@ def replay(case):
             tb = tb.tb_next
         out.append(('tdvp:last-bond-one-site' if sat else 'tdvp:exception:%s' % type(e).__name__,
                     'hybrid tdvp raised %r (initial ranks %r, dims %r)' % (e, x0.ranks, dims)))
+    # the same dynamics in other units: operator x 2^-44, times x 2^44 (exp(-i t H) is unchanged)
+    if full:
+        Hs = (2.0 ** -44) * H
+        for name, f, kw2 in (('tdvp1site', ode.tdvp1site, {}), ('tdvp2site', ode.tdvp2site, dict(threshold=0, max_rank=64))):
+            if name == 'tdvp2site' and d < 2:
+                continue
+            try:
+                xs = traj_ok(f(Hs, x0, h * 2.0 ** 44, n, **kw2), name + ':rescaled')
+                if xs is not None:
+                    exact(xs, name + ':rescaled')
+            except Exception as e:
+                out.append(('%s:rescaled:exception:%s' % (name, type(e).__name__), repr(e)))
     if N >= 2:
         try:
             # the Krylov space of (H, x0) must really be the whole space (no Lanczos breakdown)
@@ -139,6 +151,12 @@ def replay(case):
                 err = np.linalg.norm(vec(t) - want)
                 if err > 1e-8:
                     out.append(('krylov:exact:%s' % kind, 'Krylov space = state space: result differs from exp(-i h H) x0 by %.3e (dims %r)' % (err, dims)))
+                else:
+                    # the same propagation in other units (operator x 2^-44, time x 2^44), default threshold
+                    t2 = ode.krylov((2.0 ** -44) * H, x0, N, h * 8 * 2.0 ** 44)
+                    if metadata_problem(t2) or np.linalg.norm(vec(t2) - want) > 1e-7:
+                        out.append(('krylov:rescaled:%s' % kind, 'operator x 2^-44 with time x 2^44: result differs from exp(-i t H) x0 by %.3e (dims %r)' % (
+                            np.linalg.norm(vec(t2) - want) if not metadata_problem(t2) else np.inf, dims)))
         except StopIteration:
             pass
         except Exception as e:
